@@ -7,6 +7,8 @@ import EpdVerif.Drivers.Epd2in9
 import EpdVerif.Drivers.Epd2in7_v2
 import EpdVerif.Drivers.Epd1in54_v2
 import EpdVerif.Drivers.Epd7in3f
+import EpdVerif.Drivers.Epd5in65f
+import EpdVerif.Drivers.Epd1in02
 /-!
 # C07 per panel: `clear_frame` for EVERY background colour from ANY controller state (session 4)
 
@@ -400,5 +402,77 @@ theorem epd7in3f_clear_uniform (f : Feat) (d : DState) (u : Uc) (hu : u.asleep =
 
 /-- the plane size in the hypothesis is the panel's: 800 x 480 at 4 bpp -/
 example : Gen.Epd7in3f.WIDTH * Gen.Epd7in3f.HEIGHT / 2 = 192000 := by decide
+
+/-- the VCOM / data-interval block and the resolution block change no plane, no mode -/
+theorem feed_50_61 (u : Uc) (a r : List UInt8) (hu : u.asleep = false) :
+    (u.run [Blk.c 0x50 a, .c 0x61 r]).asleep = false ∧ (u.run [Blk.c 0x50 a, .c 0x61 r]).partialOn = u.partialOn ∧
+    (u.run [Blk.c 0x50 a, .c 0x61 r]).p1 = u.p1 ∧ (u.run [Blk.c 0x50 a, .c 0x61 r]).epis = u.epis := by
+  simp (config := {decide := true}) only [Uc.run, List.foldl, Uc.feed, Uc.regStep, hu, ↓reduceIte, Bool.false_eq_true, and_false, and_self]
+
+open Drivers.Epd5in65f in
+theorem epd5in65f_clear_blocks (f : Feat) (d : DState) :
+    blocksOf ((prog f d .clear).getD []) =
+      [.c 0x50 [(0x17 : UInt8) ||| u8 ((d.bg &&& 0b111) <<< 5)],
+       .c 0x61 [shr8 Gen.Epd5in65f.WIDTH 8, u8 Gen.Epd5in65f.WIDTH, shr8 Gen.Epd5in65f.HEIGHT 8, u8 Gen.Epd5in65f.HEIGHT],
+       .c 0x10 (List.replicate (Gen.Epd5in65f.WIDTH * Gen.Epd5in65f.HEIGHT / 2) (colorsByte d.bg d.bg) ++ []),
+       .c 0x04 [], .c 0x12 [], .c 0x02 []] := rfl
+
+open Drivers.Epd5in65f in
+/-- **epd5in65f `clear_frame`, every background colour, any awake controller outside partial mode** -/
+theorem epd5in65f_clear_uniform (f : Feat) (d : DState) (u : Uc) (hu : u.asleep = false) (hp : u.partialOn = false)
+    (h1 : u.p1.size = Gen.Epd5in65f.WIDTH * Gen.Epd5in65f.HEIGHT / 2) :
+    (u.run (blocksOf ((prog f d .clear).getD []))).p1.toList
+      = List.replicate (Gen.Epd5in65f.WIDTH * Gen.Epd5in65f.HEIGHT / 2) (colorsByte d.bg d.bg) ∧
+    ((u.run (blocksOf ((prog f d .clear).getD []))).epis.head?.map fun e => (e.plane, e.count, e.stored))
+      = some (0, Gen.Epd5in65f.WIDTH * Gen.Epd5in65f.HEIGHT / 2, Gen.Epd5in65f.WIDTH * Gen.Epd5in65f.HEIGHT / 2) := by
+  rw [epd5in65f_clear_blocks, List.append_nil]
+  have q := feed_50_61 u [(0x17 : UInt8) ||| u8 ((d.bg &&& 0b111) <<< 5)]
+    [shr8 Gen.Epd5in65f.WIDTH 8, u8 Gen.Epd5in65f.WIDTH, shr8 Gen.Epd5in65f.HEIGHT 8, u8 Gen.Epd5in65f.HEIGHT] hu
+  have r : ∀ (a b : Blk) (rest : List Blk), u.run (a :: b :: rest) = (u.run [a, b]).run rest := fun _ _ _ => rfl
+  rw [r]
+  exact uc_fill_then_bracket _ _ _ [] [] q.1 (by rw [q.2.1, hp]) (by rw [q.2.2.1, h1])
+
+/-- PartialOut and the two waveform tables: partial mode is left, no plane is touched -/
+theorem feed_92_luts (u : Uc) (l1 l2 : List UInt8) (hu : u.asleep = false) :
+    (u.run [Blk.c 0x92 [], .c 0x23 l1, .c 0x24 l2]).asleep = false ∧ (u.run [Blk.c 0x92 [], .c 0x23 l1, .c 0x24 l2]).partialOn = false ∧
+    (u.run [Blk.c 0x92 [], .c 0x23 l1, .c 0x24 l2]).p1 = u.p1 ∧ (u.run [Blk.c 0x92 [], .c 0x23 l1, .c 0x24 l2]).p2 = u.p2 := by
+  simp (config := {decide := true}) only [Uc.run, List.foldl, Uc.feed, Uc.regStep, hu, ↓reduceIte, Bool.false_eq_true, and_false, and_self]
+
+set_option maxRecDepth 8000 in
+open Drivers.Epd1in02 in
+/-- **epd1in02 `clear_frame`, every background colour**, from any awake controller that is outside partial mode
+    whenever the driver believes it is (`refresh = Full`; in `Quick` the call itself leaves partial mode):
+    the new-image plane ends uniformly the colour's byte, the old-image plane its complement, each
+    written by exactly one block of the plane's size -/
+theorem epd1in02_clear_uniform (f : Feat) (d : DState) (u : Uc) (hu : u.asleep = false)
+    (hc : d.refresh = .full → u.partialOn = false)
+    (h1 : u.p1.size = Gen.Epd1in02.NUMBER_OF_BYTES) (h2 : u.p2.size = Gen.Epd1in02.NUMBER_OF_BYTES) :
+    (u.run (blocksOf ((prog f d .clear).getD []))).p1.toList = List.replicate Gen.Epd1in02.NUMBER_OF_BYTES (~~~ byteValue d.bg) ∧
+    (u.run (blocksOf ((prog f d .clear).getD []))).p2.toList = List.replicate Gen.Epd1in02.NUMBER_OF_BYTES (byteValue d.bg) := by
+  cases hr : d.refresh with
+  | full =>
+    have hb : blocksOf ((prog f d .clear).getD []) =
+        [.c 0x10 (List.replicate Gen.Epd1in02.NUMBER_OF_BYTES (~~~ byteValue d.bg) ++ []),
+         .c 0x13 (List.replicate Gen.Epd1in02.NUMBER_OF_BYTES (byteValue d.bg) ++ [])] := by
+      simp only [prog, clearFrame, setFullMode, hr, ne_eq, not_true_eq_false, if_false, Option.getD_some, List.append_nil]
+      rfl
+    rw [hb]
+    simp only [List.append_nil]
+    have k := uc_two_fills u (~~~ byteValue d.bg) (byteValue d.bg) Gen.Epd1in02.NUMBER_OF_BYTES Gen.Epd1in02.NUMBER_OF_BYTES hu (hc hr) h1.symm h2.symm
+    exact ⟨k.1, k.2.1⟩
+  | quick =>
+    have hb : blocksOf ((prog f d .clear).getD []) =
+        [.c 0x92 [], .c 0x23 (Gen.Epd1in02.LUT_FULL_UPDATE_WHITE ++ []), .c 0x24 (Gen.Epd1in02.LUT_FULL_UPDATE_BLACK ++ []),
+         .c 0x10 (List.replicate Gen.Epd1in02.NUMBER_OF_BYTES (~~~ byteValue d.bg) ++ []),
+         .c 0x13 (List.replicate Gen.Epd1in02.NUMBER_OF_BYTES (byteValue d.bg) ++ [])] := by
+      simp only [prog, clearFrame, setFullMode, setLut, hr, ne_eq, reduceCtorEq, not_false_eq_true, if_true, Option.getD_some]
+      rfl
+    rw [hb]
+    simp only [List.append_nil]
+    have q := feed_92_luts u Gen.Epd1in02.LUT_FULL_UPDATE_WHITE Gen.Epd1in02.LUT_FULL_UPDATE_BLACK hu
+    have r : ∀ (a b c : Blk) (rest : List Blk), u.run (a :: b :: c :: rest) = (u.run [a, b, c]).run rest := fun _ _ _ _ => rfl
+    rw [r]
+    have k := uc_two_fills _ (~~~ byteValue d.bg) (byteValue d.bg) Gen.Epd1in02.NUMBER_OF_BYTES Gen.Epd1in02.NUMBER_OF_BYTES q.1 q.2.1 (by rw [q.2.2.1]; exact h1.symm) (by rw [q.2.2.2]; exact h2.symm)
+    exact ⟨k.1, k.2.1⟩
 
 end EpdVerif.Props.C07
